@@ -21,15 +21,15 @@ def run(ctx):
             ("all", "db:64", 200 if quick else 3000, "graded_failures"),
             # structured generator for the transitive-firewall-callee bookkeeping (value-neutral
             # switches between firewalls, tops repaired in different orders)
-            ("tfc", "mem", 500 if quick else 8000, "failures"),
-            ("tfc", "db:4", 150 if quick else 2000, "failures"),
+            ("tfc", "mem", 500 if quick else 3000, "failures"),
+            ("tfc", "db:4", 150 if quick else 800, "failures"),
             ("fw", "mem", 400 if quick else 6000, "failures"),
             # the same with projections over the firewalls (and projections over those: graded)
-            ("ptfc", "mem", 400 if quick else 6000, "failures"),
-            ("ptfc-chain", "mem", 300 if quick else 5000, "graded_failures"),
+            ("ptfc", "mem", 400 if quick else 2500, "failures"),
+            ("ptfc-chain", "mem", 300 if quick else 2000, "graded_failures"),
             # the firewall fragment model Engine/Fw.v (the one FwSound.v is about) against the same kind of histories
-            ("fw", "mem", 300 if quick else 4000, "fw_failures"),
-            ("tfc", "mem", 300 if quick else 4000, "fw_failures")]
+            ("fw", "mem", 300 if quick else 3000, "fw_failures"),
+            ("tfc", "mem", 300 if quick else 1500, "fw_failures")]
     total, dis_all, dists, real_fail, samples, hist_total = 0, [], {}, [], [], 0
     for k, (mode, cfg, n, fn) in enumerate(runs):
         d = os.path.join(ctx.rundir, f"{mode}_{cfg.replace(':', '')}_{fn}")
